@@ -811,6 +811,19 @@ Definition read_coll (p : policy) (s : store) (now : Z) (t : ty) (k : bytes) : o
 Definition read (p : policy) (s : store) (now : Z) (t : ty) (k : bytes) : obs :=
   match t with TK => read_kv p s now k | _ => read_coll p s now t k end.
 
+(* single-element reads: HGET / HMGET per field, SISMEMBER, ZSCORE, and GET / MGET / EXISTS per key *)
+Definition read_elem (p : policy) (s : store) (now : Z) (t : ty) (k : bytes) (m : bytes) : option eval :=
+  match coll_header p s now t k with
+  | (h, ud, ex) => if not_exist_or_expired ud ex then None else el_get s t k (h_ver h) (SB m)
+  end.
+Definition read_value (p : policy) (s : store) (now : Z) (k : bytes) : option bytes :=
+  match kv_raw p s now k with (_, ov, ex) => kv_cur ov ex end.
+(* EXISTS k1 k2 ...: the number of arguments that are live *)
+Definition read_exists (p : policy) (s : store) (now : Z) (ks : list bytes) : Z :=
+  Z.of_nat (length (filter (fun k => match read_value p s now k with Some _ => true | None => false end) ks)).
+Definition read_mget (p : policy) (s : store) (now : Z) (ks : list bytes) : list (option bytes) :=
+  map (read_value p s now) ks.
+
 (* ---------- background: compaction filter (wait_compact) ---------- *)
 Inductive item := IKV (k : bytes) | IMeta (t : ty) (k : bytes) | IElem (t : ty) (k : bytes) (ver : Z) (sb : skey).
 
